@@ -17,7 +17,7 @@ RULE = ("generated .itp texts: 1..60 atoms (quick) / ..400 (thorough) plus chain
         "start and gaps; bonds spread over [bonds]/[constraints]/[pairs], possibly with one of them occurring twice; "
         "bond lines with 2..6 fields; comment, blank, #include/#ifdef/#endif lines, trailing comments (also comments that "
         "contain bracketed words such as '; b0 [nm]' or ';[ bonds ]'), tabs and "
-        "multiple blanks; other sections (angles, dihedrals, exclusions) between them; 1..4 residues; (rewrite) one path "
+        "multiple blanks, LF or CRLF line ends; other sections (angles, dihedrals, exclusions) between them; 1..4 residues; (rewrite) one path "
         "holding two different topologies of exactly the same byte size one after the other (and back), with equal or "
         "free modification times. Non-trivial = "
         "(numbering with a gap and bonds in >=2 sections) or longest path > 1000. Distinct = sha1 of the case JSON.")
@@ -188,7 +188,7 @@ def case_strategy(draw, tier, with_variant=False):
     used_sections = sorted(set(s for s, ix in sections if ix))
     case = {"name": name, "n": n, "graph": kind, "atoms": atoms, "edges": edges, "numbering": numbering,
             "layout": layout, "sections": [[s, len(ix)] for s, ix in sections], "used_sections": used_sections,
-            "style": style, "text": text}
+            "style": style, "text": text, "crlf": draw(st.integers(0, 5)) == 0}
     if not with_variant:
         return case
     # a second topology whose text has exactly the same length: names swapped for names of equal length, bond
@@ -231,7 +231,7 @@ def longest_path_lower_bound(n, edges):
 
 def check(case):
     path = env.fresh_path(".itp")
-    with open(path, "w") as f:
+    with open(path, "w", newline="\r\n" if case.get("crlf") else None) as f:
         f.write(case["text"])
     return check_at(path, case)
 
@@ -244,7 +244,7 @@ def check_rewrite(case):
     order = [a, b] + ([a] if case["third"] else [])
     info = None
     for k, v in enumerate(order):
-        with open(path, "w") as f:
+        with open(path, "w", newline="\r\n" if v.get("crlf") else None) as f:
             f.write(v["text"])
         if case["same_mtime"]:
             os.utime(path, (1700000000, 1700000000))
@@ -343,7 +343,8 @@ def check_at(path, case):
     nt = (gap and len(case["used_sections"]) >= 2) or lp > 1000
     return {"nontrivial": nt,
             "classes": ["graph:" + case["graph"], "numbering:" + case["numbering"], "layout:" + case["layout"],
-                        "path>1000" if lp > 1000 else "path<=1000", "noise" if case["style"]["noise"] else "plain"],
+                        "path>1000" if lp > 1000 else "path<=1000", "noise" if case["style"]["noise"] else "plain",
+                        "crlf" if case.get("crlf") else "lf"],
             "sample": {k: case[k] for k in ("name", "n", "graph", "numbering", "layout", "sections", "style")} |
                       {"text_head": case["text"][:600]}}
 
